@@ -524,6 +524,13 @@ func verifyETHTx(tx *types.Transaction, height uint64) error {
 		return ErrIllegal
 	}
 
+	// only payloads signed with EIP-155 replay protection for this chain are admitted: for an
+	// unprotected (Homestead) signature the EIP-155 signer below would fall back to plain recovery
+	if !ethTx.Protected() {
+		txPoolLogger.Errorf("Verify eth tx error!tx:%s,error: not replay protected", ethTx.Hash().String())
+		return ErrIllegal
+	}
+
 	signer := eth_tx.NewEIP155Signer(common.GetChainId(height))
 	sender, err := eth_tx.Sender(signer, ethTx)
 	if err != nil {
